@@ -133,6 +133,15 @@ def json (fs : List String) : String :=
       let k1 := if hasUnseparatedScalar bs then 1 else 0
       s!"slice:{verdictName sv}:{sd.length} reader:{verdictName rv}:{rd.length} k1:{k1} out:{toHex (writeDocs markerFloat rd)}"
     | none => "bad-case"
+  | ["jsondetect", hex] =>
+    match parseHex hex with
+    | some bs =>
+      let ign := match ignoreValue bs with
+        | .ok rest => s!"ok:{bs.length - rest.length}"
+        | .error e => "err:" ++ errName e
+      let b (x : Bool) : String := if x then "1" else "0"
+      s!"slice:{b (trialSlice bs)} reader:{b (trialReader bs)} ign:{ign}"
+    | none => "bad-case"
   | ["jsonstr", hex] =>
     match parseHex hex with
     | some (0x22 :: bs) =>
@@ -159,7 +168,7 @@ def answer (fs : List String) : String :=
   match fs with
   | "encdetect" :: _ | "reencode" :: _ | "reencstream" :: _ => encoding fs
   | "tomlorder" :: _ => tomlorder fs
-  | "json" :: _ | "jsonstr" :: _ | "jsonnum" :: _ => json fs
+  | "json" :: _ | "jsonstr" :: _ | "jsonnum" :: _ | "jsondetect" :: _ => json fs
   | _ => "bad-engine"
 
 partial def loop (h : IO.FS.Stream) (out : IO.FS.Stream) : IO Unit := do
